@@ -213,7 +213,9 @@ class Ctx:
             self.violations.append((signature, what, case))
 
     def broke(self, kind, name, detail):
-        self.broken.append((kind, name, detail))
+        self.nbroken = getattr(self, 'nbroken', 0) + 1
+        if sum(1 for k, n, _ in self.broken if (k, n) == (kind, name)) < 3:
+            self.broken.append((kind, name, detail))
 
     # ---- Lean side
     def lean(self, extra_modules=()):
@@ -287,7 +289,7 @@ class Ctx:
             lines.append(f'VIOLATION property={self.id} replay={path} no-failing-input-found')
             nviol += 1
         elif self.broken:
-            self.notes.append('also broken: ' + '; '.join(f'{k}:{n}' for k, n, _ in self.broken))
+            self.notes.append('also broken: ' + '; '.join(sorted({f'{k}:{n}' for k, n, _ in self.broken})) + f' ({self.nbroken} mismatches)')
         ev = {
             'property_id': self.id, 'tier': self.tier, 'seed': self.seed, 'level': self.level,
             'coverage': self.cov, 'assumptions': self.assumptions, 'wall_s': round(wall, 2),
